@@ -244,9 +244,15 @@ impl Property for C20 {
         let mut buckets: Vec<f64> = (0..nb).map(|k| k as f64 * 3.0 + src.below(6) as f64 / 2.0).collect();
         buckets.dedup();
         // lists the constructor adjusts: a trailing +Inf (dropped), +Inf alone (no finite bucket at all)
-        match src.below(8) {
+        // ... and lists that begin like the default list: a prefix of it, the whole of it, or the whole of it with further bounds
+        match src.below(12) {
             0 => buckets.push(f64::INFINITY),
             1 => buckets = vec![f64::INFINITY],
+            8 => buckets = prometheus::DEFAULT_BUCKETS[..1 + src.below(prometheus::DEFAULT_BUCKETS.len())].to_vec(),
+            9 => {
+                buckets = prometheus::DEFAULT_BUCKETS.to_vec();
+                buckets.extend([30.0, 60.0].iter().take(1 + src.below(2)));
+            }
             _ => {}
         }
         let default_buckets = buckets.is_empty();
